@@ -5,6 +5,16 @@ NOTES = ("Contract-based deductive verification of the real Python source (pyvc,
 PYVC_NOTE = ("Trusted: the pyvc executor's encoding of Python/NumPy semantics (cross-checked against CPython, see DESIGN 1.8), z3/cvc5, "
              "the axioms listed in evidence.assumptions, and the surrounding code named 'Out' in DESIGN section 3.")
 CLAIMED = {
+    "C02": ("Unbounded proof of the links of the chain that are functions: get_address equals the Ethos-U addressing rule (tiles, NHWC / NHCWB16 "
+            "bricks); footprint soundness of get_address_range / get_address_ranges (EVERY element of the feature map shape, not only the corners, "
+            "has all its bytes in the range of its tile); check_mem_limits returns normally IFF every range of every region, read and written, lies "
+            "inside the region's limit, else VelaError (nested loop invariants over a dict of range sets); get_region maps only the permanent memory "
+            "types to the constants region; get_mem_limits_for_regions / mem_type_size give arena_cache_size as the fast-scratch limit exactly in "
+            "Dedicated-SRAM modes and shram_size_bytes for SHRAM. The composition over scheduler, allocator and serialiser is an assumed link.",
+            PYVC_NOTE + " Not yet under contract in this revision: get_op_memory_accesses / get_dma_memory_accesses (construction of the access sets from the "
+            "footprints), the order check-before-issue in generate_command_stream, Tensor.address_for_coordinate, publication of allocator totals as "
+            "tensor shapes (DESIGN 3/C02 links L3, L5-L8). Tile boxes are required to have height_1 == height_0 (all compiler-built tile boxes do).",
+            "contract-based deductive verification (symbolic execution of real AST + SMT, ghost-quantified footprint lemmas, loop invariants over heap maps)", "DESIGN.md 3/C02"),
     "C04": ("Unbounded proof that conflict detection is exact: RangeSet.intersects (two-pointer loop invariant) and range_lists_overlap return True "
             "iff two ranges share a byte, RangeSet.__or__ covers exactly the bytes of both operands; block-job geometry for BLOCKDEP: block "
             "numbering of get_offset_block_coords and that the first-job IFM volume contains the receptive field of its OFM block (per accelerator).",
@@ -70,6 +80,6 @@ NOT_APPLICABLE = {
     "C13": "totality of the whole compiler; per-function no_exception obligations do not decide it (DESIGN 4)",
     "C14": "2-safety over process histories and global mutable state (DESIGN 4)",
     "C16": "pipeline-emergent placement and natural-language report text (DESIGN 4)",
-    "C02": PLANNED, "C08": PLANNED, 
+    "C08": PLANNED, 
     
 }
